@@ -400,7 +400,7 @@ pub fn trial(prop: &str, i: u64, rng: &mut Rng, out: &mut Outcome, dir: &std::pa
 
 pub fn run(ctx: &Ctx) -> i32 {
     let dir = ctx.scratch_dir("c16");
-    let n = ctx.budget(700, 30_000) as u64;
+    let n = ctx.budget(4000, 60_000) as u64;
     let out = crate::par::run(ctx, n, std::time::Duration::from_secs(ctx.tier.pick(60, 900)), |i, rng, out| trial(&ctx.prop, i, rng, out, &dir));
     let _ = std::fs::remove_dir_all(&dir);
     let floors = vec![
